@@ -1,0 +1,43 @@
+//! Reach probes for the external verification harness
+//!
+//! Compiled only with `--cfg rssl_verif`. A probe records how many elements a hash container
+//! held when it was iterated and a signature of the order they came out in, so that the harness
+//! can measure whether its workloads reach order sensitive code. Probes have no effect on
+//! control flow and use no clock or randomness.
+
+use std::cell::RefCell;
+use std::hash::{Hash, Hasher};
+
+/// Recorded probe: site name, number of elements, order signature
+pub type ProbeEvent = (&'static str, usize, u64);
+
+/// Upper bound on events kept per thread between two drains
+const MAX_EVENTS: usize = 1 << 16;
+
+thread_local! {
+    static SINK: RefCell<Vec<ProbeEvent>> = const { RefCell::new(Vec::new()) };
+}
+
+/// Record an event for the current thread
+pub fn probe(site: &'static str, len: usize, order_sig: u64) {
+    SINK.with(|sink| {
+        let mut sink = sink.borrow_mut();
+        if sink.len() < MAX_EVENTS {
+            sink.push((site, len, order_sig));
+        }
+    });
+}
+
+/// Hash a sequence of items in iteration order with fixed keys
+pub fn order_sig<T: Hash>(items: impl IntoIterator<Item = T>) -> u64 {
+    let mut hasher = std::collections::hash_map::DefaultHasher::new();
+    for item in items {
+        item.hash(&mut hasher);
+    }
+    hasher.finish()
+}
+
+/// Take all events recorded on the current thread
+pub fn drain() -> Vec<ProbeEvent> {
+    SINK.with(|sink| std::mem::take(&mut *sink.borrow_mut()))
+}
